@@ -154,6 +154,9 @@ func (c *trCtx) assignedIn2(through bool, nodes ...ast.Node) []types.Object {
 						}
 					}
 				}
+				if a := trWriterVarArg(c.info(), x); a != nil {
+					mark(a) // fmt.Fprintf(w, …) / io.WriteString(w, s) on an io.Writer variable (trans_units_beancount.go)
+				}
 				c.markingCall = false
 			case *ast.FuncLit:
 				return false
@@ -161,6 +164,7 @@ func (c *trCtx) assignedIn2(through bool, nodes ...ast.Node) []types.Object {
 			return true
 		})
 	}
+	c.writerAliasClose(assigned) // two names of one io.Writer are assigned together (trans_units_beancount.go)
 	var res []types.Object
 	for o := range assigned {
 		if !defined[o] {
@@ -525,6 +529,9 @@ func (c *trCtx) exprStmt(x *ast.ExprStmt, k trK) trLines {
 	if r, ok := c.printfStmt(call, k); ok {
 		return r // fmt.Printf in a closure: appended to the log `stdout` (trans_units_perf.go)
 	}
+	if out, ok := c.sortSliceStmt(call, k); ok {
+		return out // compare.Sort(x.f, F) through the value variable x of a range loop (trans_units_beancount.go)
+	}
 	if out, ok := c.sortStmt(call, k); ok {
 		return out // compare.Sort(X, F) (trans_units_jprinter.go)
 	}
@@ -536,6 +543,9 @@ func (c *trCtx) exprStmt(x *ast.ExprStmt, k trK) trLines {
 	}
 	if r, ok := c.logCall(call, k); ok {
 		return r
+	}
+	if r, ok := c.writerVarCall(call, nil, false, k); ok {
+		return r // fmt.Fprintf / io.WriteString on an io.Writer variable (trans_units_beancount.go)
 	}
 	// a prelude method that writes to its receiver (strings.Builder): the receiver is rebound, the results are dropped
 	if fo := c.calledFunc(call); fo != nil {
@@ -597,6 +607,7 @@ func (c *trCtx) store(lhs ast.Expr, val string, pos token.Pos, k trK) trLines {
 	if id := trBaseIdent(lhs); id != nil && len(c.aliases) > 0 {
 		c.killAliases(c.info().Uses[id], nil) // aliases into a tree hanging on this variable are stale from here on
 	}
+	k = c.writerSync(lhs, k) // the other name of the same io.Writer follows (trans_units_beancount.go)
 	k = c.writeBack(lhs, k)
 	pre0 := c.takePre()
 	name, ty, term := c.storeTerm(lhs, val, pos)
@@ -731,6 +742,7 @@ func (c *trCtx) assign(x *ast.AssignStmt, k trK) trLines {
 		trFail(x.Pos(), "assignment with %d targets and %d values is outside the subset", len(x.Lhs), len(x.Rhs))
 	}
 	if len(x.Lhs) == 1 {
+		k = c.writerAliasAfter(x, k) // p := Ctor(w) that stores the writer w: one sink, two names (trans_units_beancount.go)
 		if c.perfGetAlias(x) {
 			return k() // x := get(&m): another name of m (trans_units_perf.go)
 		}
@@ -836,6 +848,9 @@ func (c *trCtx) assignMulti(x *ast.AssignStmt, k trK) trLines {
 		}
 		if out, ok := c.primResultCall(r, x.Lhs, x.Tok == token.DEFINE, k); ok {
 			return out
+		}
+		if out, ok := c.writerVarCall(r, x.Lhs, x.Tok == token.DEFINE, k); ok {
+			return out // fmt.Fprintf / io.WriteString on an io.Writer variable (trans_units_beancount.go)
 		}
 		tup, ok := c.typeOf(r).(*types.Tuple)
 		if !ok || tup.Len() != len(x.Lhs) {
